@@ -4,7 +4,7 @@
    queue, one retry iteration in atomic actions, compaction cap; every commit takes an environment choice).
    A label list is an arbitrary interleaving of all of these, with arbitrary fault placements. *)
 From KB Require Import Base.Cases Model.RetrySys Model.C09Cases
-  Proofs.RetryBase Proofs.RetryInv1 Proofs.RetryInv2 Proofs.RetryProps Proofs.RetryInv3 Proofs.RetryInvX Proofs.RetryAck Proofs.RetryWitness.
+  Proofs.RetryBase Proofs.RetryInv1 Proofs.RetryInv2 Proofs.RetryProps Proofs.RetryInv3 Proofs.RetryInvX Proofs.RetryAck Proofs.C09Cases Proofs.RetryWitness.
 Local Open Scope N_scope.
 
 (* ---------- error class ---------- *)
@@ -132,3 +132,33 @@ Example C09_oracle_on_model :
   (c09_check (self_case sc_F1) = true /\ c09_oracle (self_case sc_F1) = None) /\
   (c09_check (self_case sc_F2) = true /\ c09_oracle (self_case sc_F2) = None).
 Proof. exact oracle_on_model. Qed.
+
+(* ---------- soundness of the correspondence oracle, clause by clause ----------
+   On a case that passed the check (the recorded observation IS the model's observation of the script) three of the
+   oracle's clauses are theorems; c09_oracle c = None needs three more (see props/C09.json "gaps").
+   c09_valid c: every script step is inside the stated assumptions (not step_outside; no repair commit answered with a bare
+   abort), and — the one link that is checked per case (c09_validb, executable) instead of proved for all scripts — wherever
+   the oracle's bookkeeping over observations regards a List as drained, the model state is quiescent. *)
+Theorem C09_oracle_clause_class : forall c,
+  Forall dstep_wf (c_script c) -> c09_check c = true -> forallb class_ok (c_obs c) = true.
+Proof. exact oracle_clause_class. Qed.
+Print Assumptions C09_oracle_clause_class.
+
+Theorem C09_oracle_clause_increasing : forall c,
+  Forall dstep_wf (c_script c) -> c09_check c = true ->
+  increasing (map (fun e : evobs => let '(_, _, _, r, _) := e in r) (c_events c)) = true.
+Proof. exact oracle_clause_increasing. Qed.
+Print Assumptions C09_oracle_clause_increasing.
+
+Theorem C09_oracle_clause_converges : forall c,
+  c09_valid c -> c09_check c = true -> cs_conv (conv_of c) = true.
+Proof. exact oracle_clause_converges. Qed.
+Print Assumptions C09_oracle_clause_converges.
+
+Theorem C09_oracle_valid_decidable : forall c, c09_validb c = true -> c09_valid c.
+Proof. exact c09_validb_spec. Qed.
+Print Assumptions C09_oracle_valid_decidable.
+
+Example C09_oracle_valid_inhabited :
+  c09_validb (self_case sc_clean) = true /\ c09_validb (self_case sc_F1) = true /\ c09_validb (self_case sc_F2) = true.
+Proof. exact valid_on_model. Qed.
